@@ -25,6 +25,12 @@ Theorem C12_no_panic : forall i, wf i = true ->
 Proof. exact no_panic. Qed.
 Print Assumptions C12_no_panic.
 
+(* none of the outcomes handed back is a nil pointer *)
+Theorem C12_no_nil_outcomes : forall i f l outs e,
+  wf i = true -> model i = ORet f l outs e -> ~ In None outs.
+Proof. exact no_nil_outcomes. Qed.
+Print Assumptions C12_no_nil_outcomes.
+
 (* verifier.Verify / VerifyBlob: no error <-> an outcome without error (which carries its
    level); an error returned after policy selection comes with an outcome whose Error is
    that very error *)
